@@ -24,6 +24,7 @@ PROPS = {
     "C15": dict(level="exploration", shards=(2, 16), timeout=(300, 1500), assumptions=COMMON, fuzz=[("FuzzC15", 60)]),
     "C16": dict(level="exploration", shards=(4, 16), timeout=(600, 3000), assumptions=COMMON + ["loopback TCP delivers bytes in order; the scripted peer's transcript is what the component wrote"]),
     "C17": dict(level="exploration", shards=(2, 16), timeout=(300, 1500), assumptions=COMMON),
+    "C18": dict(level="exploration", shards=(4, 16), timeout=(900, 3000), assumptions=COMMON + ["a time.Ticker never fires early, so n ticks need at least n-1 intervals", "liveness verdicts use margins of 100 intervals + 3 s (12 s on the confirming re-run)"]),
     "C19": dict(level="exploration", shards=(2, 16), timeout=(300, 1500), assumptions=COMMON),
     "C20": dict(level="exploration", shards=(2, 16), timeout=(300, 1500), assumptions=COMMON),
 }
@@ -32,6 +33,11 @@ NOT_APPLICABLE = {}
 
 # Texts for MANIFEST.json
 TEXT = {
+    "C18": dict(
+        technique="property-based fault injection (rapid): generated interval / failing-keepalive index / session-end time on a stub Transport and on a real Client with a wrapped Transport against the scripted peer",
+        level_text="Exploration: generated intervals (2-40 ms), a write failure at the k-th keepalive for k in 1-10, or a session end at a generated time relative to the ticker; run on the bare keepalive loop with a recording stub Transport (verif export) and end to end with a real Client whose Transport is wrapped. Rate bound (sound: a ticker never fires early), presence of at least one keepalive within a generous margin, single-newline content on the wire, exactly one Close and no further keepalive after a failed write, loss reported once, loop termination and silence after the session ended.",
+        level_note="Schedules are those the Go scheduler produces at generated times; the loop has two select arms, so at most one keepalive can race with the session end (allowed for max(3 intervals, 100 ms)). 60 cases quick, 1200 thorough (each case sleeps for 4-14 intervals).",
+    ),
     "C13": dict(
         technique="fault-sequence property test (rapid): generated sequences of losses, refusals and failing reconnection attempts against a Client run by StreamManager; oracle on the scripted peer's accept log",
         level_text="Fault enumeration over the loss alphabet {TCP reset, graceful close, </stream:stream>} x {server keeps listening, refuses connections for a while} x {0-3 reconnection attempts cut at stream open / auth / bind} x {resumption confirmed, refused} x {finally accepted, permanently rejected by SASL failure}, composed into generated sequences of 1-3 losses. After each loss exactly one new session must appear (resumed when allowed), exactly failing-attempts+1 connections may reach the server, the new session must carry traffic both ways, PostConnect must have run once per session, a permanent error must end the retries, Stop must make Run return.",
